@@ -61,6 +61,10 @@ def ast_digest(fn):
     return hashlib.sha256(ast.dump(funcdef_of(fn)).encode()).hexdigest()[:16]
 
 
+class FrameViolation(Undecided):
+    """the function touches state outside its frame (shared / global / captured mutable object)"""
+
+
 class ReturnEx(Exception):
     def __init__(self, v):
         self.v = v
@@ -812,6 +816,15 @@ class Interp:
         if sym:
             if isinstance(f, types.FunctionType) and self.inline_fallback(f):
                 return self.call_function(f, args, kwargs)
+            owner = getattr(f, "__self__", None)
+            if owner is not None and id(owner) in self.fresh_ids and isinstance(owner, (list, dict, set)):
+                return f(*args, **kwargs)        # a container created by this very activation
+            if owner is not None and not isinstance(owner, (type, types.ModuleType)) and not isinstance(owner, IMMUTABLE_TYPES) \
+                    and id(owner) not in self.fresh_ids:
+                self.ctx.effects.append(("call-on-shared", f"{type(owner).__name__}.{getattr(f, '__name__', '?')}",
+                                         self.where(node, fr), self.provenance(owner, fr)))
+                raise FrameViolation(f"FRAME: method {type(owner).__name__}.{getattr(f, '__name__', '?')} called on a shared "
+                                     f"object ({self.provenance(owner, fr)}) with data of this call")
             raise Undecided(f"call of {getattr(f, '__qualname__', f)!r} with symbolic arguments has no contract/model")
         # concrete call: check it cannot mutate shared state
         self.note_call(f, fr, node)
@@ -853,13 +866,14 @@ class Interp:
             return
         self.ctx.effects.append(("call-on-shared", f"{type(owner).__name__}.{name}", self.where(node, fr),
                                  self.provenance(owner, fr)))
-        if name in MUTATING_METHODS or True:
-            raise Undecided(f"call of possibly mutating method {type(owner).__name__}.{name} on a shared object")
+        raise FrameViolation(f"FRAME: possibly mutating method {type(owner).__name__}.{name} called on a shared object "
+                             f"({self.provenance(owner, fr)})")
 
     def note_mutation(self, o, kind, node, fr):
         if id(o) in self.fresh_ids:
             return
         self.ctx.effects.append((kind, type(o).__name__, self.where(node, fr), self.provenance(o, fr)))
+        raise FrameViolation(f"FRAME: {kind} on a non-fresh {type(o).__name__} ({self.provenance(o, fr)})")
 
     def provenance(self, o, fr):
         if id(o) in self.fresh_ids:
